@@ -936,6 +936,50 @@ def pytree_strategy(draw, tier):
   return {'tree': draw(tree_strategy(tier)), 'key': key, 'key2': draw(other_key(key))}
 
 
+# ---------------------------------------------------- other random-bit layout
+
+def child_rotation_batch(cases):
+  """Runs in a child interpreter started with JAX_THREEFRY_PARTITIONABLE=0."""
+  assert not jax.config.jax_threefry_partitionable
+  for i, case in enumerate(cases):
+    try:
+      run_rotation(case)
+    except Violation as v:
+      return {'clause': v.clause, 'message': f'case {i}: {v.message}', 'index': i}
+  return {}
+
+
+def run_rotation_legacy_rng(case):
+  """The rotation clauses under the other documented layout of JAX's random
+  bits (jax_threefry_partitionable=False, the default of the JAX releases
+  fedjax was written for): there, draws of different lengths from one key do
+  not share a prefix, so the forward and the inverse rotation must ask for
+  their signs in exactly the same way."""
+  import subprocess
+  import sys
+  from vf import env as _env
+  env = _env.worker_env()
+  env['JAX_THREEFRY_PARTITIONABLE'] = '0'
+  p = subprocess.run([sys.executable, '-m', 'vf.child', 'vf.props.c18', 'child_rotation_batch',
+                      json.dumps(case['cases']), '--no-tf'], env=env, cwd=_env.VERIF_DIR,
+                     capture_output=True, text=True, timeout=1800)
+  line = [l for l in p.stdout.splitlines() if l.startswith('@@CHILD@@')]
+  if p.returncode != 0 or not line:
+    raise Violation('legacy_rng:child_process_failed', p.stderr[-1500:])
+  res = json.loads(line[0][9:])
+  if 'clause' in res:
+    raise Violation('legacy_rng:' + res['clause'], res['message'])
+
+
+@st.composite
+def legacy_rng_strategy(draw, tier):
+  return {'cases': [draw(rotation_strategy(tier)) for _ in range(6)]}
+
+
+def legacy_rng_labels(case):
+  return sorted({l for c in case['cases'] for l in rotation_labels(c)})
+
+
 CHECKS = [
     Check(name='transform_grid', run=run_grid, cases=grid_cases,
           labels=transform_labels, nontrivial=transform_nontrivial, time_share=1.5,
@@ -960,6 +1004,13 @@ CHECKS = [
               'recorded shape, norm, R(x) = H D pad(x)/sqrt(d) for a sign diagonal D, inverse '
               'restores values and shape, same key deterministic, R(2x) = 2R(x), different '
               'keys differ'),
+    Check(name='rotation_roundtrip_legacy_rng', run=run_rotation_legacy_rng,
+          strategy=legacy_rng_strategy, labels=legacy_rng_labels,
+          nontrivial=rotation_nontrivial,
+          budget={'quick': 32, 'thorough': 640}, time_share=1.0,
+          doc='six rotation_roundtrip cases per child interpreter started with '
+              'JAX_THREEFRY_PARTITIONABLE=0 (draws of different lengths from one key '
+              'share no prefix there): every clause of rotation_roundtrip'),
     Check(name='rotation_pytree', run=run_pytree, strategy=pytree_strategy,
           labels=pytree_labels, nontrivial=rotation_nontrivial,
           budget={'quick': 600, 'thorough': 12000}, time_share=1.5,
